@@ -1,41 +1,35 @@
-(* C09, COMPONENTS OF chains of any depth: the linking pass yields the meaning of the notation whenever the notation
-   comes last in every list of the chain and every referenced type sorts after the type that refers to it (so that the
-   pass, which runs in descending name order, has finished it before).  This is the exact shape in which the known
-   findings C09-components-of-appended (position) and C09-components-of-chain-order (order) do not bite. *)
-From Coq Require Import NArith List Bool Arith Lia Sorting.Sorted Permutation.
+(* C09, COMPONENTS OF chains of any depth and in any name order: the linking pass yields the meaning of the notation for
+   every type at the head of a chain that is not circular and whose COMPONENTS OF entries come last in every list.
+   (Position: a notation that does not come last is the known finding C09-components-of-appended.)
+   The pass is a fold over the names in descending order; the invariant says that every definition is either still as
+   parsed or finished -- no pending references, and, if it heads an acyclic chain, members equal to its expansion. *)
+From Coq Require Import NArith List Bool Arith Lia.
 Require Import RasnV.Model.Base RasnV.Model.Driver RasnV.Model.Expansion.
 Require Import RasnV.Proofs.Driver RasnV.Proofs.C09.
 Import ListNotations.
 
-Lemma ss_app_left {A} (R : A -> A -> Prop) l1 a l2 : StronglySorted R (l1 ++ a :: l2) -> Forall (fun x => R x a) l1.
-Proof.
-  induction l1 as [|x l1 IH]; cbn; intro H; [constructor|].
-  inversion H as [|? ? Hs Hf]; subst. constructor; [|now apply IH].
-  rewrite Forall_forall in Hf. apply Hf. apply in_or_app. right. now left.
-Qed.
-
-Lemma sorted_keys_ss {V} (m : list (str * V)) : sorted m -> StronglySorted lt (map fst m).
-Proof.
-  induction 1 as [|p r Hs IH Hall]; cbn; constructor; [exact IH|].
-  rewrite Forall_forall in *. intros k Hk. apply in_map_iff in Hk as [q [Hq Hin]]. subst k. exact (Hall q Hin).
-Qed.
-
-(* in the processing order, whatever follows n sorts before n *)
-Lemma descending_after ds a n b : descending ds = a ++ n :: b -> forall x, In x b -> lt x n.
-Proof.
-  unfold descending. intros H x Hx.
-  assert (Hs : StronglySorted lt (map fst (from_list t_name ds))).
-  { apply sorted_keys_ss. rewrite from_list_rev. apply from_list_r_sorted. }
-  apply (f_equal (@rev str)) in H. rewrite rev_involutive, rev_app_distr in H. cbn [rev] in H. rewrite <- app_assoc in H.
-  cbn [app] in H. rewrite H in Hs. apply ss_app_left in Hs. rewrite Forall_forall in Hs. apply Hs. now apply -> in_rev.
-Qed.
-
 Lemma fold_left_snoc {A B} (f : A -> B -> A) l x a : fold_left f (l ++ [x]) a = f (fold_left f l a) x.
 Proof. rewrite fold_left_app. reflexivity. Qed.
 
-Lemma link_one_members st d :
-  l_members (link_one st (init_state d)) =
-  own_names (t_items d) ++ flat_map (fun r => match find_state r st with Some t => l_members t | None => [] end) (refs_of (t_items d)).
+Lemma flat_map_ext_in {A B} (f g : A -> list B) l : (forall x, In x l -> f x = g x) -> flat_map f l = flat_map g l.
+Proof.
+  induction l as [|x l IH]; intro H; [reflexivity|]. cbn [flat_map]. rewrite (H x (or_introl eq_refl)). f_equal.
+  apply IH. intros y Hy. apply H. now right.
+Qed.
+
+Lemma mem_str_false x l : (forall a, In a l -> a <> x) -> mem_str x l = false.
+Proof.
+  unfold mem_str. induction l as [|a l IH]; intro H; [reflexivity|]. cbn [existsb].
+  rewrite (str_eqb_neq x a) by (intro E; exact (H a (or_introl eq_refl) (eq_sym E))). cbn. apply IH. intros b Hb. apply H. now right.
+Qed.
+
+Lemma link_full_members f st v d :
+  l_members (link_full (S f) st v (init_state d)) =
+  own_names (t_items d) ++ flat_map (fun r => if mem_str r v then []
+                                              else match find_state r st with
+                                                   | Some t => l_members (link_full f st (r :: v) t)
+                                                   | None => []
+                                                   end) (refs_of (t_items d)).
 Proof. reflexivity. Qed.
 
 Lemma expand_trailing_def f ds d :
@@ -50,153 +44,124 @@ Proof.
   intro H. rewrite H. apply expand_trailing.
 Qed.
 
-(* the state of n right after its own step, for every head of an ordered chain *)
-Lemma chain_state ds (Hnd : NoDup (map t_name ds)) :
-  forall h n, ordered_chain ds h n ->
-  forall d a b, find_def n ds = Some d -> descending ds = a ++ n :: b ->
-  exists s, find_state n (fold_left step (a ++ [n]) (map init_state ds)) = Some s /\
-            forall f, h <= f -> l_members s = expand f ds (t_is_seq d) (t_items d).
+Lemma replace_length s st : length (replace_state s st) = length st.
+Proof. induction st as [|x r IH]; cbn; [reflexivity|]. destruct (str_eqb (l_name s) (l_name x)); cbn; [reflexivity | now rewrite IH]. Qed.
+
+Lemma step_length st n : length (step st n) = length st.
+Proof. unfold step, link_step. destruct (find_state n st); [apply replace_length | reflexivity]. Qed.
+
+Section Pass.
+  Variable ds : list tdef.
+  Variable rank : str -> nat.
+  Hypothesis rank_bound : forall y, rank y <= length ds.
+
+  (* a definition is finished: nothing pending and, if it heads an acyclic chain, the members of its expansion *)
+  Definition finished (y : str) (d : tdef) (t : lstate) : Prop :=
+    l_refs t = [] /\
+    (acyclic_chain ds rank y -> forall f, rank y <= f -> l_members t = expand f ds (t_is_seq d) (t_items d)).
+
+  Definition Inv (st : list lstate) : Prop :=
+    length st = length ds /\
+    forall y d, find_def y ds = Some d -> exists t, find_state y st = Some t /\ (t = init_state d \/ finished y d t).
+
+  (* linking a copy of x, as parsed or finished, against a state that satisfies the invariant *)
+  Lemma link_full_chain st0 (HInv : Inv st0) :
+    forall m x, rank x <= m -> acyclic_chain ds rank x -> forall d, find_def x ds = Some d ->
+    forall key V fuel t f,
+      rank x <= rank key -> (forall a, In a V -> rank x <= rank a) -> rank x < fuel ->
+      (t = init_state d \/ finished x d t) -> rank x <= f ->
+      l_members (link_full fuel (remove_state key st0) V t) = expand f ds (t_is_seq d) (t_items d).
+  Proof.
+    induction m as [|m IH]; intros x Hm Hac d Hd key V fuel t f Hkey HV Hfuel Ht Hf.
+    - (* rank 0: no references *)
+      inversion Hac as [n0 d0 Hd0 Htr Hrefs]; subst n0. rewrite Hd in Hd0. inversion Hd0; subst d0. clear Hd0.
+      assert (Hnil : refs_of (t_items d) = []).
+      { destruct (refs_of (t_items d)) as [|r l] eqn:E; [reflexivity|]. destruct (Hrefs r (or_introl eq_refl)) as [Hlt _]. lia. }
+      destruct Ht as [->|[Hr Hfin]].
+      + rewrite link_full_resolved by exact Hnil. rewrite (expand_owns _ _ _ _ Hnil). reflexivity.
+      + rewrite link_full_resolved by exact Hr. apply Hfin; assumption.
+    - destruct Ht as [->|[Hr Hfin]]; [|rewrite link_full_resolved by exact Hr; apply Hfin; assumption].
+      inversion Hac as [n0 d0 Hd0 Htr Hrefs]; subst n0. rewrite Hd in Hd0. inversion Hd0; subst d0. clear Hd0.
+      destruct (refs_of (t_items d)) as [|r0 l0] eqn:Erefs.
+      { rewrite link_full_resolved by exact Erefs. rewrite (expand_owns _ _ _ _ Erefs). reflexivity. }
+      assert (Hpos : 0 < rank x) by (destruct (Hrefs r0 (or_introl eq_refl)) as [Hlt _]; lia).
+      destruct fuel as [|fuel]; [lia|]. destruct f as [|f]; [lia|].
+      rewrite link_full_members, (expand_trailing_def f ds d Htr), Erefs. f_equal.
+      apply flat_map_ext_in. intros r Hin. destruct (Hrefs r Hin) as [Hlt [dr [Hfr [Hk Hacr]]]].
+      rewrite mem_str_false by (intros a Ha E; subst a; specialize (HV r Ha); lia).
+      rewrite find_remove_other by (intro E; subst key; lia).
+      destruct HInv as [_ HI]. destruct (HI r dr Hfr) as [tr [Hst Htr']]. rewrite Hst, Hfr, Hk, Bool.eqb_reflx.
+      rewrite <- Hk. apply (IH r); try assumption; try lia.
+      intros a [<-|Ha]; [lia | specialize (HV a Ha); lia].
+  Qed.
+
+  Lemma inv_init : NoDup (map t_name ds) -> Inv (map init_state ds).
+  Proof.
+    intro Hnd. split; [apply map_length|]. intros y d Hd. exists (init_state d). split; [now apply find_init | now left].
+  Qed.
+
+  Lemma inv_step st n : Inv st -> Inv (step st n).
+  Proof.
+    intros HInv. pose proof HInv as [Hlen HI]. split; [rewrite step_length; exact Hlen|].
+    intros y d Hd. destruct (HI y d Hd) as [t [Hst Ht]].
+    destruct (list_eq_dec N.eq_dec n y) as [->|Hne].
+    - unfold step, link_step. rewrite Hst.
+      set (s' := link_full (S (length st)) (remove_state y st) [] t).
+      assert (Hnm : l_name s' = y) by (cbn; exact (find_state_name _ _ _ Hst)).
+      exists s'. split; [exact (find_replace_key s' st y t Hnm Hst)|]. right. split; [reflexivity|].
+      intros Hac f Hf. apply (link_full_chain st HInv (rank y) y (Nat.le_refl _) Hac d Hd y [] (S (length st)) t f); try assumption; try lia.
+      + intros a [].
+      + rewrite Hlen. pose proof (rank_bound y). lia.
+    - exists t. split; [|exact Ht]. rewrite step_other by exact Hne. exact Hst.
+  Qed.
+
+  Lemma inv_fold l : forall st, Inv st -> Inv (fold_left step l st).
+  Proof. induction l as [|x l IH]; intros st H; [exact H|]. cbn [fold_left]. apply IH. now apply inv_step. Qed.
+
+  Theorem link_pass_acyclic n :
+    NoDup (map t_name ds) -> acyclic_chain ds rank n -> linked_members ds n = expanded_members ds n.
+  Proof.
+    intros Hnd Hac. inversion Hac as [n0 d Hd Htr Hrefs]; subst n0.
+    unfold linked_members, expanded_members. rewrite Hd. cbn [option_map].
+    change (link_pass (descending ds) (map init_state ds)) with (fold_left step (descending ds) (map init_state ds)).
+    destruct (in_split _ _ (descending_in ds n _ Hnd Hd)) as [a [b Hsplit]].
+    pose proof (descending_nodup ds) as Hnodup. rewrite Hsplit in Hnodup.
+    assert (Hnb : ~ In n b) by (apply NoDup_remove_2 in Hnodup; intro; apply Hnodup; apply in_or_app; now right).
+    rewrite Hsplit. replace (a ++ n :: b) with ((a ++ [n]) ++ b) by (rewrite <- app_assoc; reflexivity).
+    rewrite fold_left_app, (fold_other b _ n Hnb), fold_left_snoc.
+    pose proof (inv_fold a _ (inv_init Hnd)) as HInv. set (st1 := fold_left step a (map init_state ds)) in *.
+    pose proof HInv as [Hlen HI]. destruct (HI n d Hd) as [t [Hst Ht]].
+    unfold step at 1, link_step. rewrite Hst.
+    set (s' := link_full (S (length st1)) (remove_state n st1) [] t).
+    assert (Hnm : l_name s' = n) by (cbn; exact (find_state_name _ _ _ Hst)).
+    rewrite (find_replace_key s' st1 n t Hnm Hst). cbn [option_map]. f_equal.
+    apply (link_full_chain st1 HInv (rank n) n (Nat.le_refl _) Hac d Hd n [] (S (length st1)) t (length ds)); try assumption; try lia.
+    - intros x [].
+    - rewrite Hlen. pose proof (rank_bound n). lia.
+    - apply rank_bound.
+  Qed.
+End Pass.
+
+(* a chain of depth two whose middle type is linked AFTER the type that includes it (the order the pass got wrong until the
+   fix of C09-components-of-chain-order):  Aa { id }, Mm { label, COMPONENTS OF Aa }, Zz { flag, COMPONENTS OF Mm } *)
+Definition ds_chain : list tdef :=
+  [mktdef nA true [Own n_id]; mktdef nM true [Own n_label; ComponentsOf nA]; mktdef nZ true [Own n_flag; ComponentsOf nM]].
+Definition rank_chain (x : str) : nat := if str_eqb x nZ then 2 else if str_eqb x nM then 1 else 0.
+
+Lemma ds_chain_acyclic : acyclic_chain ds_chain rank_chain nZ.
 Proof.
-  induction h as [|h IH]; intros n Hoc; [inversion Hoc|].
-  inversion Hoc as [h' n' d0 Hd0 Htr Hrefs]; subst h' n'.
-  intros d a b Hd Hsplit. rewrite Hd0 in Hd. inversion Hd; subst d0. clear Hd.
-  pose proof (descending_nodup ds) as Hnodup. rewrite Hsplit in Hnodup.
-  assert (Hna : ~ In n a) by (apply NoDup_remove_2 in Hnodup; intro; apply Hnodup; apply in_or_app; now left).
-  set (st0 := map init_state ds). set (st1 := fold_left step a st0).
-  assert (Hn1 : find_state n st1 = Some (init_state d)).
-  { unfold st1. rewrite (fold_other a st0 n Hna). now apply find_init. }
-  rewrite fold_left_snoc. fold st1. unfold step. rewrite Hn1.
-  assert (Hnm : l_name (link_one st1 (init_state d)) = n).
-  { cbn. apply (find_def_in _ _ _ Hd0). }
-  exists (link_one st1 (init_state d)). split; [exact (find_replace_key _ st1 n _ Hnm Hn1)|].
-  intros f Hf. destruct f as [|f]; [lia|]. assert (Hhf : h <= f) by lia.
-  rewrite link_one_members, (expand_trailing_def f ds d Htr). f_equal.
-  (* every referenced type has been finished in the prefix a *)
-  assert (Hr : forall r, In r (refs_of (t_items d)) ->
-                 exists dr t, find_def r ds = Some dr /\ t_is_seq dr = t_is_seq d /\ find_state r st1 = Some t /\
-                              l_members t = expand f ds (t_is_seq d) (t_items dr)).
-  { intros r Hin. destruct (Hrefs r Hin) as [Hlt [dr [Hfr [Hk Hocr]]]].
-    assert (Hra : In r a).
-    { pose proof (descending_in ds r dr Hnd Hfr) as Hrin. rewrite Hsplit in Hrin. apply in_app_or in Hrin as [Hra|[Heq|Hrb]].
-      - exact Hra.
-      - subst r. exfalso. exact (lt_irrefl _ Hlt).
-      - exfalso. pose proof (descending_after ds a n b Hsplit r Hrb) as Hlt'. exact (lt_irrefl _ (lt_trans _ _ _ Hlt Hlt')). }
-    destruct (in_split _ _ Hra) as [a1 [a2 Ha]].
-    assert (Hsplit' : descending ds = a1 ++ r :: (a2 ++ n :: b)) by (rewrite Hsplit, Ha, <- app_assoc; reflexivity).
-    destruct (IH r Hocr dr a1 (a2 ++ n :: b) Hfr Hsplit') as [s [Hs Hm]].
-    exists dr, s. repeat split; try assumption.
-    - unfold st1. rewrite Ha. replace (a1 ++ r :: a2) with ((a1 ++ [r]) ++ a2) by (rewrite <- app_assoc; reflexivity).
-      rewrite fold_left_app. rewrite fold_other; [exact Hs|].
-      pose proof (descending_nodup ds) as Hnd2. rewrite Hsplit' in Hnd2. apply NoDup_remove_2 in Hnd2.
-      intro Hin2. apply Hnd2. apply in_or_app. right. apply in_or_app. now left.
-    - rewrite <- Hk. apply Hm. exact Hhf. }
-  clear Hrefs Hoc Htr. induction (refs_of (t_items d)) as [|r l IHl]; [reflexivity|]. cbn [flat_map].
-  destruct (Hr r (or_introl eq_refl)) as [dr [t [Hfr [Hk [Hst Hm]]]]].
-  rewrite Hst, Hfr, Hk, Bool.eqb_reflx, Hm. f_equal. apply IHl. intros r' Hr'. apply Hr. now right.
-Qed.
-
-Theorem link_pass_ordered_chain ds h n :
-  NoDup (map t_name ds) -> ordered_chain ds h n -> h <= length ds ->
-  linked_members ds n = expanded_members ds n.
-Proof.
-  intros Hnd Hoc Hh. inversion Hoc as [h' n' d Hd Htr Hrefs]; subst.
-  unfold linked_members, expanded_members. rewrite Hd. cbn [option_map]. rewrite link_pass_fold.
-  destruct (in_split _ _ (descending_in ds n _ Hnd Hd)) as [a [b Hsplit]].
-  destruct (chain_state ds Hnd _ n Hoc d a b Hd Hsplit) as [s [Hs Hm]].
-  pose proof (descending_nodup ds) as Hnodup. rewrite Hsplit in Hnodup.
-  assert (Hnb : ~ In n b) by (apply NoDup_remove_2 in Hnodup; intro; apply Hnodup; apply in_or_app; now right).
-  rewrite Hsplit. replace (a ++ n :: b) with ((a ++ [n]) ++ b) by (rewrite <- app_assoc; reflexivity).
-  rewrite fold_left_app, (fold_other b _ n Hnb), Hs. cbn [option_map]. f_equal. apply Hm. exact Hh.
-Qed.
-
-(* ---- the height bound is no restriction: a chain of strictly increasing names is no longer than the module ---- *)
-Lemma oc_mono ds : forall h n, ordered_chain ds h n -> forall h', h <= h' -> ordered_chain ds h' n.
-Proof.
-  induction h as [|h IH]; intros n H; inversion H as [h0 n0 d Hd Htr Hrefs]; subst.
-  intros h' Hle. destruct h' as [|h']; [lia|].
-  eapply oc_intro; [exact Hd | exact Htr |]. intros r Hin. destruct (Hrefs r Hin) as [Hlt [dr [Hf [Hk Hoc]]]].
-  split; [exact Hlt|]. exists dr. repeat split; try assumption. apply (IH r Hoc). lia.
-Qed.
-
-Lemma filter_length_le {A} (P : A -> bool) l : length (filter P l) <= length l.
-Proof. induction l as [|x l IH]; cbn; [lia|]. destruct (P x); cbn; lia. Qed.
-
-Lemma filter_length_mono {A} (P Q : A -> bool) l :
-  (forall y, P y = true -> Q y = true) -> length (filter P l) <= length (filter Q l).
-Proof.
-  intro H. induction l as [|x l IH]; cbn; [lia|]. destruct (P x) eqn:EP.
-  - rewrite (H x EP). cbn. lia.
-  - destruct (Q x); cbn; lia.
-Qed.
-
-Lemma filter_length_lt {A} (P Q : A -> bool) l x :
-  (forall y, P y = true -> Q y = true) -> In x l -> P x = false -> Q x = true ->
-  length (filter P l) < length (filter Q l).
-Proof.
-  intros H Hin HP HQ. induction l as [|y l IH]; [destruct Hin|]. cbn. destruct Hin as [->|Hin].
-  - rewrite HP, HQ. cbn. pose proof (filter_length_mono P Q l H). lia.
-  - specialize (IH Hin). destruct (P y) eqn:EP.
-    + rewrite (H y EP). cbn. lia.
-    + destruct (Q y); cbn; lia.
-Qed.
-
-Definition str_ltb (a b : str) : bool := match str_compare a b with Lt => true | _ => false end.
-(* the number of definitions whose name does not sort before n *)
-Definition not_before (ds : list tdef) (n : str) : nat := length (filter (fun d => negb (str_ltb (t_name d) n)) ds).
-
-Lemma str_ltb_lt a b : str_ltb a b = true <-> lt a b.
-Proof. unfold str_ltb, lt. destruct (str_compare a b); split; intro H; try reflexivity; discriminate. Qed.
-
-Lemma not_before_lt ds n r d : find_def n ds = Some d -> lt n r -> not_before ds r < not_before ds n.
-Proof.
-  intros Hd Hlt. destruct (find_def_in _ _ _ Hd) as [Hin Hn]. unfold not_before.
-  apply (filter_length_lt _ _ ds d); [| exact Hin | |].
-  - intros y Hy. destruct (str_ltb (t_name y) n) eqn:E; [|reflexivity].
-    apply str_ltb_lt in E. assert (H : str_ltb (t_name y) r = true) by (apply str_ltb_lt; exact (lt_trans _ _ _ E Hlt)).
-    rewrite H in Hy. discriminate.
-  - rewrite Hn. apply str_ltb_lt in Hlt. rewrite Hlt. reflexivity.
-  - rewrite Hn. unfold str_ltb. rewrite cmp_refl. reflexivity.
-Qed.
-
-Lemma oc_bounded ds : forall h n, ordered_chain ds h n -> ordered_chain ds (not_before ds n) n.
-Proof.
-  induction h as [|h IH]; intros n H; inversion H as [h0 n0 d Hd Htr Hrefs]; subst.
-  assert (Hpos : 0 < not_before ds n).
-  { destruct (find_def_in _ _ _ Hd) as [Hin Hn]. unfold not_before.
-    assert (Hf : In d (filter (fun d0 => negb (str_ltb (t_name d0) n)) ds)).
-    { apply filter_In. split; [exact Hin|]. rewrite Hn. unfold str_ltb. rewrite cmp_refl. reflexivity. }
-    destruct (filter _ ds); [destruct Hf | cbn; lia]. }
-  destruct (not_before ds n) as [|m] eqn:Em; [lia|].
-  eapply oc_intro; [exact Hd | exact Htr |]. intros r Hin. destruct (Hrefs r Hin) as [Hlt [dr [Hf [Hk Hoc]]]].
-  split; [exact Hlt|]. exists dr. repeat split; try assumption.
-  apply (oc_mono ds _ r (IH r Hoc)). pose proof (not_before_lt ds n r d Hd Hlt). lia.
-Qed.
-
-(* the statement without a height *)
-Theorem link_pass_ordered_chain_any ds h n :
-  NoDup (map t_name ds) -> ordered_chain ds h n -> linked_members ds n = expanded_members ds n.
-Proof.
-  intros Hnd Hoc. apply (link_pass_ordered_chain ds (not_before ds n) n Hnd (oc_bounded ds h n Hoc)).
-  apply filter_length_le.
-Qed.
-
-(* a chain of depth two that the pass gets right: Z { id }, M { label, COMPONENTS OF Z }, A { flag, COMPONENTS OF M } *)
-Definition ds_ordered : list tdef :=
-  [mktdef nZ true [Own n_id]; mktdef nM true [Own n_label; ComponentsOf nZ]; mktdef nA true [Own n_flag; ComponentsOf nM]].
-
-Lemma ds_ordered_chain : ordered_chain ds_ordered 3 nA.
-Proof.
-  eapply oc_intro; [reflexivity | reflexivity |]. intros r [<-|[]]. split; [reflexivity|].
+  eapply ac_intro; [reflexivity | reflexivity |]. intros r [<-|[]]. split; [cbn; lia|].
   eexists. split; [reflexivity|]. split; [reflexivity|].
-  eapply oc_intro; [reflexivity | reflexivity |]. intros r [<-|[]]. split; [reflexivity|].
+  eapply ac_intro; [reflexivity | reflexivity |]. intros r [<-|[]]. split; [cbn; lia|].
   eexists. split; [reflexivity|]. split; [reflexivity|].
-  eapply oc_intro; [reflexivity | reflexivity |]. intros r [].
+  eapply ac_intro; [reflexivity | reflexivity |]. intros r [].
 Qed.
 
-Example ordered_chain_applies :
-  NoDup (map t_name ds_ordered) /\ ordered_chain ds_ordered 3 nA /\ 3 <= length ds_ordered /\
-  linked_members ds_ordered nA = Some [n_flag; n_label; n_id].
+Example acyclic_chain_applies :
+  NoDup (map t_name ds_chain) /\ (forall y, rank_chain y <= length ds_chain) /\ acyclic_chain ds_chain rank_chain nZ /\
+  linked_members ds_chain nZ = Some [n_flag; n_label; n_id].
 Proof.
-  split; [|split; [exact ds_ordered_chain | split; [cbn; lia | vm_compute; reflexivity]]].
-  repeat constructor; cbn; intuition discriminate.
+  split; [repeat constructor; cbn; intuition discriminate|].
+  split; [intro y; unfold rank_chain; cbn; destruct (str_eqb y nZ); [lia|]; destruct (str_eqb y nM); lia|].
+  split; [exact ds_chain_acyclic | vm_compute; reflexivity].
 Qed.
